@@ -471,3 +471,322 @@ Proof.
     + tail_case xi (@None (Z * Z * Z * Z)) EC.
     + tail_case xi (@None (Z * Z * Z * Z)) EC.
 Qed.
+
+(* ------------------------------------------------------------------ transport of the C16 theorems
+   to the generated create_dataset_from_inputs *)
+
+(* the window the generated function reads through: none without a ROI, else the one get_window
+   returns for the size of the image file *)
+Definition reads_through (xi : xinputs) (roi : option roi_t) (win : option (Z * Z * Z * Z)) : Prop :=
+  match roi, win with
+  | None, None => True
+  | Some r, Some (co, ro, w, h) =>
+    get_window (r_col_first r) (r_col_last r) (r_row_first r) (r_row_last r)
+               (r_m_left r) (r_m_up r) (r_m_right r) (r_m_down r)
+               (rf_width (xi_img xi)) (rf_height (xi_img xi)) = Window co ro w h
+  | _, _ => False
+  end.
+
+(* the bands of the image file, read through the window *)
+Definition xdata (xi : xinputs) (win : option (Z * Z * Z * Z)) : list (arr sample) :=
+  map (read win) (rf_bands (xi_img xi)).
+
+Lemma data_of_to_inputs xi win : data_of (to_inputs xi) win = xdata xi win.
+Proof. reflexivity. Qed.
+
+Lemma gen_create_ok xi roi g :
+  G.create_dataset_from_inputs xi roi = COk g ->
+  exists win, reads_through xi roi win /\
+              ds_rel g (create_dataset (to_inputs xi) win) /\ xextra xi (im_dims_of xi) g.
+Proof.
+  intros E. pose proof (gen_create_eq xi roi) as R. rewrite E in R.
+  unfold model_create in R. cbn [to_inputs i_img] in R. rewrite shape_of_bands in R.
+  unfold reads_through, rf_width, rf_height.
+  destruct (bands_shape (rf_bands (xi_img xi))) as [H W]. cbn [fst snd].
+  destruct roi as [r|]; cbn [window_of] in R.
+  - destruct (get_window _ _ _ _ _ _ _ _ _ _) as [co ro w h| |] eqn:EW; cbn in R; try contradiction.
+    exists (Some (co, ro, w, h)). split; [reflexivity|exact R].
+  - exists None. split; [exact I|exact R].
+Qed.
+
+(* which result for which window *)
+Lemma gen_create_result xi roi :
+  match window_of roi (rf_width (xi_img xi)) (rf_height (xi_img xi)) with
+  | None | Some (Window _ _ _ _) => exists g, G.create_dataset_from_inputs xi roi = COk g
+  | Some RaiseOutside => G.create_dataset_from_inputs xi roi = CRaiseOutside
+  | Some RaiseNegative => G.create_dataset_from_inputs xi roi = CRaiseNegative
+  end.
+Proof.
+  pose proof (gen_create_eq xi roi) as R.
+  unfold model_create in R. cbn [to_inputs i_img] in R. rewrite shape_of_bands in R.
+  unfold rf_width, rf_height.
+  destruct (bands_shape (rf_bands (xi_img xi))) as [H W]. cbn [fst snd].
+  destruct (window_of roi W H) as [[co ro w h| |]|];
+    destruct (G.create_dataset_from_inputs xi roi); cbn in R; try contradiction; eauto.
+Qed.
+
+Lemma class_at_rel (a : option (arr Z)) (b : option (arr Z)) r c :
+  opt_rel arr_eq a b -> class_at a r c = class_at b r c.
+Proof.
+  destruct a, b; cbn; try contradiction; auto. intros [_ [_ H]]. rewrite H. reflexivity.
+Qed.
+
+Lemma Forall2_compose {A B C} (R : A -> B -> Prop) (P : B -> C -> Prop) (Q : A -> C -> Prop) l1 l2 l3 :
+  (forall a b c, R a b -> P b c -> Q a c) -> Forall2 R l1 l2 -> Forall2 P l2 l3 -> Forall2 Q l1 l3.
+Proof.
+  intros H F1. revert l3. induction F1; intros l3 F2; inversion F2; subst; constructor; eauto.
+Qed.
+
+(* mask_semantics on the generated function *)
+Lemma gen_mask_semantics xi roi g :
+  G.create_dataset_from_inputs xi roi = COk g ->
+  x_valid_pixels g = 0 /\ x_no_data_mask g = 1 /\
+  exists win, reads_through xi roi win /\
+    let nv := xi_nodata xi in
+    let data := xdata xi win in
+    forall r c,
+      (forall a, In a data -> 0 <= r < nr a /\ 0 <= c < nc a) ->
+      (forall a, In a data -> opposite_inf nv (px a r c) = false) ->
+      class_at (x_msk g) r c =
+      spec_class nv (map (fun a => px a r c) data)
+                 (option_map (fun f => px (read win (band1 f)) r c) (cfg_get None (xi_mask xi))).
+Proof.
+  intros E. destruct (gen_create_ok _ _ _ E) as [win [Hw [R _]]].
+  split; [apply (rel_valid _ _ R)|]. split; [apply (rel_ndmask _ _ R)|].
+  exists win. split; [exact Hw|]. intros nv data r c Hin Ho.
+  rewrite (class_at_rel _ _ r c (rel_msk _ _ R)).
+  pose proof (mask_semantics (to_inputs xi) win r c) as M. cbv zeta in M.
+  rewrite data_of_to_inputs in M. rewrite (M Hin Ho). cbn [to_inputs i_nodata i_mask].
+  destruct (cfg_get None (xi_mask xi)); reflexivity.
+Qed.
+
+Lemma gen_mask_absent_iff xi roi g :
+  G.create_dataset_from_inputs xi roi = COk g ->
+  exists win, reads_through xi roi win /\
+    (x_msk g = None <->
+     (cfg_get None (xi_mask xi) = None /\
+      forall a r c, In a (xdata xi win) -> 0 <= r < nr a -> 0 <= c < nc a ->
+                    nodata_test (xi_nodata xi) (px a r c) = false)).
+Proof.
+  intros E. destruct (gen_create_ok _ _ _ E) as [win [Hw [R _]]].
+  exists win. split; [exact Hw|].
+  pose proof (mask_absent_iff (to_inputs xi) win) as M. cbv zeta in M.
+  rewrite data_of_to_inputs in M. cbn [to_inputs i_nodata i_mask] in M.
+  pose proof (rel_msk _ _ R) as Hm.
+  assert (Hn : x_msk g = None <-> d_msk (create_dataset (to_inputs xi) win) = None).
+  { destruct (x_msk g), (d_msk _); cbn in Hm; try contradiction; split; auto; discriminate. }
+  rewrite Hn, M.
+  destruct (cfg_get None (xi_mask xi)); cbn [option_map]; split; intros [H1 H2]; split; auto; discriminate.
+Qed.
+
+Lemma gen_samples_unchanged xi roi g :
+  G.create_dataset_from_inputs xi roi = COk g ->
+  exists win, reads_through xi roi win /\
+    let nv := xi_nodata xi in
+    Forall2 (fun out d =>
+               nr out = nr d /\ nc out = nc d /\
+               forall r c, 0 <= r < nr d -> 0 <= c < nc d ->
+                           opposite_inf nv (px d r c) = false ->
+                           px out r c = spec_sample nv (px d r c))
+            (nd_bands (x_im g)) (xdata xi win)
+    /\ x_band_im g = match xdata xi win with [_] => None | _ => Some (rf_desc (xi_img xi)) end
+    /\ x_im_dims g = im_dims_of xi.
+Proof.
+  intros E. destruct (gen_create_ok _ _ _ E) as [win [Hw [R [Hd _]]]].
+  exists win. split; [exact Hw|]. intros nv.
+  pose proof (samples_unchanged (to_inputs xi) win) as M. cbv zeta in M.
+  rewrite data_of_to_inputs in M. cbn [to_inputs i_nodata i_names] in M. destruct M as [M1 M2].
+  split; [|split; [rewrite (rel_band_im _ _ R); exact M2|exact Hd]].
+  eapply Forall2_compose; [|apply (rel_im _ _ R)|exact M1].
+  intros a b d [Hr [Hc Hp]] [H1 [H2 H3]]. cbv beta.
+  split; [congruence|]. split; [congruence|]. intros r c Hrr Hcc Ho. rewrite Hp. auto.
+Qed.
+
+(* the disparity variable (with its band_disp labels and the disparity_source attribute), the
+   classification and the segmentation *)
+Lemma gen_disparity_var xi roi g :
+  G.create_dataset_from_inputs xi roi = COk g ->
+  exists win, reads_through xi roi win /\
+    let '(ny, nx) := shape_of (xdata xi win) in
+    match cfg_get DispNone (xi_disp xi) with
+    | DispNone => x_disparity g = None /\ x_band_disp g = None
+    | DispPair a b =>
+      exists d1 d2, x_disparity g = Some [d1; d2] /\ x_band_disp g = Some ["min"%string; "max"%string] /\
+        nr d1 = ny /\ nc d1 = nx /\ nr d2 = ny /\ nc d2 = nx /\
+        forall r c, px d1 r c = sz a /\ px d2 r c = sz b
+    | DispGrid g1 g2 =>
+      exists d1 d2, x_disparity g = Some [d1; d2] /\ x_band_disp g = Some ["min"%string; "max"%string] /\
+        arr_eq d1 (read win g1) /\ arr_eq d2 (read win g2)
+    end
+    /\ x_disparity_source g = xi_disp xi
+    /\ x_band_classif g = option_map rf_desc (cfg_get None (xi_classif xi))
+    /\ opt_rel (Forall2 arr_eq) (x_classif g)
+               (option_map (fun f => map (read win) (rf_bands f)) (cfg_get None (xi_classif xi)))
+    /\ opt_rel arr_eq (x_segm g) (option_map (fun f => read win (band1 f)) (cfg_get None (xi_segm xi))).
+Proof.
+  intros E. destruct (gen_create_ok _ _ _ E) as [win [Hw [R [_ [Hb Hs]]]]].
+  exists win. split; [exact Hw|].
+  pose proof (disparity_var (to_inputs xi) win) as M. cbv zeta in M.
+  rewrite data_of_to_inputs in M. cbn [to_inputs i_disp i_classif i_segm] in M.
+  destruct (shape_of (xdata xi win)) as [ny nx]. destruct M as [M1 [M2 M3]].
+  pose proof (rel_disp _ _ R) as Hd. pose proof (rel_band_classif _ _ R) as Hbc.
+  pose proof (rel_classif _ _ R) as Hc. pose proof (rel_segm _ _ R) as Hsg.
+  rewrite M2 in Hbc, Hc. rewrite M3 in Hsg. clear M2 M3.
+  split; [|split; [exact Hs|split; [|split]]].
+  - destruct (cfg_get DispNone (xi_disp xi)) as [|a b|g1 g2].
+    + rewrite M1 in Hd. destruct (x_disparity g); cbn in Hd; [contradiction|auto].
+    + destruct M1 as [m1 [m2 [M1 [S1 [S2 [S3 [S4 S5]]]]]]]. rewrite M1 in Hd.
+      destruct (x_disparity g) as [l|]; cbn in Hd; [|contradiction].
+      unfold disp_rel in Hd. cbn [fst snd] in Hd.
+      inversion Hd as [|d1 ? l1 ? A1 Hd']; subst. inversion Hd' as [|d2 ? l2 ? A2 Hd'']; subst.
+      inversion Hd''; subst. destruct A1 as [? [? P1]], A2 as [? [? P2]].
+      exists d1, d2. repeat split; auto; try congruence.
+      * rewrite P1. apply S5.
+      * rewrite P2. apply S5.
+    + rewrite M1 in Hd. destruct (x_disparity g) as [l|]; cbn in Hd; [|contradiction].
+      unfold disp_rel in Hd. cbn [fst snd] in Hd.
+      inversion Hd as [|d1 ? l1 ? A1 Hd']; subst. inversion Hd' as [|d2 ? l2 ? A2 Hd'']; subst.
+      inversion Hd''; subst. exists d1, d2. auto.
+  - rewrite Hbc. destruct (cfg_get None (xi_classif xi)); reflexivity.
+  - destruct (cfg_get None (xi_classif xi)); exact Hc.
+  - destruct (cfg_get None (xi_segm xi)); exact Hsg.
+Qed.
+
+(* ------------------------------------------------------------------ ROI read = crop, refusal *)
+
+Lemma crop_of_rel {A} co ro w h (f f' r r' : arr A) :
+  arr_eq f' f -> arr_eq r' r -> crop_of co ro w h f r -> crop_of co ro w h f' r'.
+Proof.
+  intros [_ [_ Hf]] [Hr1 [Hr2 Hr]] [C1 [C2 C3]]. unfold crop_of.
+  split; [congruence|]. split; [congruence|]. intros i j Hi Hj. rewrite Hr, Hf. auto.
+Qed.
+
+Lemma Forall2_crop_rel {A} co ro w h (lf lf' lr lr' : list (arr A)) :
+  Forall2 arr_eq lf' lf -> Forall2 arr_eq lr' lr ->
+  Forall2 (crop_of co ro w h) lf lr -> Forall2 (crop_of co ro w h) lf' lr'.
+Proof.
+  intros F1. revert lr lr'. induction F1 as [|f' f lf' lf Hf F1 IH]; intros lr lr' F2 F3.
+  - inversion F3; subst. inversion F2; subst. constructor.
+  - inversion F3 as [|? r ? lr0 Hc F3']; subst. inversion F2 as [|r' ? lr0' ? Hr F2']; subst.
+    constructor; [eapply crop_of_rel; eauto|eapply IH; eauto].
+Qed.
+
+Lemma rf_size_of (f : rfile sample) W H :
+  rf_bands f <> [] -> Forall (fun a => nr a = H /\ nc a = W) (rf_bands f) ->
+  rf_width f = W /\ rf_height f = H.
+Proof.
+  unfold rf_width, rf_height. destruct (rf_bands f) as [|a l]; [congruence|].
+  intros _ F. inversion F as [|? ? [H1 H2] ?]; subst. cbn. auto.
+Qed.
+
+(* the generated function with a ROI against the generated function without: the ROI dataset is
+   the crop of the whole dataset to [first - margin, last + margin] clipped to the image *)
+Lemma gen_roi_dataset xi r gf gr W H :
+  rf_bands (xi_img xi) <> [] ->
+  Forall (fun a => nr a = H /\ nc a = W) (rf_bands (xi_img xi)) ->
+  let cf := r_col_first r in let cl := r_col_last r in
+  let rf := r_row_first r in let rl := r_row_last r in
+  let m0 := r_m_left r in let m1 := r_m_up r in let m2 := r_m_right r in let m3 := r_m_down r in
+  cf - m0 <= cl + m2 -> rf - m1 <= rl + m3 ->
+  G.create_dataset_from_inputs xi None = COk gf ->
+  G.create_dataset_from_inputs xi (Some r) = COk gr ->
+  (forall c, In c (x_col gr) <-> in_roi cf cl m0 m2 W c) /\
+  (forall i, In i (x_row gr) <-> in_roi rf rl m1 m3 H i) /\
+  x_col gf = zrange 0 W /\ x_row gf = zrange 0 H /\
+  exists co ro w h,
+    get_window cf cl rf rl m0 m1 m2 m3 W H = Window co ro w h /\
+    x_col gr = zrange co w /\ x_row gr = zrange ro h /\
+    Forall2 (crop_of co ro w h) (nd_bands (x_im gf)) (nd_bands (x_im gr)) /\
+    x_band_im gr = x_band_im gf /\
+    (forall i j, 0 <= i < h -> 0 <= j < w ->
+                 class_at (x_msk gr) i j = class_at (x_msk gf) (ro + i) (co + j)) /\
+    opt_rel (Forall2 (crop_of co ro w h)) (x_disparity gf) (x_disparity gr) /\
+    x_band_classif gr = x_band_classif gf /\
+    opt_rel (Forall2 (crop_of co ro w h)) (x_classif gf) (x_classif gr) /\
+    opt_rel (crop_of co ro w h) (x_segm gf) (x_segm gr).
+Proof.
+  intros Hne Hshape cf cl rf rl m0 m1 m2 m3 Hc Hr Ef Er.
+  destruct (gen_create_ok _ _ _ Ef) as [wf [Hwf [Rf _]]].
+  destruct (gen_create_ok _ _ _ Er) as [wr [Hwr [Rr _]]].
+  destruct wf; [contradiction|]. destruct wr as [[[[co ro] w] h]|]; [|contradiction].
+  cbn in Hwr. destruct (rf_size_of _ _ _ Hne Hshape) as [EW EH]. rewrite EW, EH in Hwr.
+  fold cf cl rf rl m0 m1 m2 m3 in Hwr.
+  assert (Hne' : i_img (to_inputs xi) <> []) by exact Hne.
+  assert (Hshape' : Forall (fun a => nr a = H /\ nc a = W) (i_img (to_inputs xi))) by exact Hshape.
+  destruct (window_is_clipped_roi _ _ _ _ _ _ _ _ _ _ _ _ _ _ Hc Hr Hwr)
+    as (Hw & Hh & Hco & Hro & HcoW & HroH & Hcols & Hrows).
+  destruct (roi_read_is_crop (to_inputs xi) W H co ro w h Hne' Hshape' Hco Hro HcoW HroH)
+    as ((Hfrow & Hfcol & Hrow & Hcol) & Him & Hbim & Hcls & Hdisp & Hclassif & Hsegm).
+  cbv zeta in *.
+  set (mf := create_dataset (to_inputs xi) None) in *.
+  set (mr := create_dataset (to_inputs xi) (Some (co, ro, w, h))) in *.
+  rewrite (rel_col _ _ Rr), (rel_row _ _ Rr), (rel_col _ _ Rf), (rel_row _ _ Rf), Hrow, Hcol.
+  split; [intros c; rewrite In_zrange; apply Hcols|].
+  split; [intros i; rewrite In_zrange; apply Hrows|].
+  split; [exact Hfcol|]. split; [exact Hfrow|].
+  exists co, ro, w, h. split; [exact Hwr|]. split; [reflexivity|]. split; [reflexivity|].
+  split; [eapply Forall2_crop_rel; [apply (rel_im _ _ Rf)|apply (rel_im _ _ Rr)|exact Him]|].
+  split; [rewrite (rel_band_im _ _ Rr), (rel_band_im _ _ Rf); exact Hbim|].
+  split.
+  { intros i j Hi Hj. rewrite (class_at_rel _ _ i j (rel_msk _ _ Rr)).
+    rewrite (class_at_rel _ _ (ro + i) (co + j) (rel_msk _ _ Rf)). apply Hcls; assumption. }
+  split.
+  { pose proof (rel_disp _ _ Rf) as Df. pose proof (rel_disp _ _ Rr) as Dr.
+    destruct (x_disparity gf) as [lf|], (d_disp mf) as [pf|]; cbn in Df; try contradiction;
+      destruct (x_disparity gr) as [lr|], (d_disp mr) as [pr|]; cbn in Dr; try contradiction;
+      cbn in Hdisp; try contradiction; cbn; auto.
+    destruct Hdisp as [D1 D2]. unfold disp_rel in Df, Dr.
+    eapply Forall2_crop_rel; [exact Df|exact Dr|]. constructor; [exact D1|]. constructor; [exact D2|]. constructor. }
+  split.
+  { rewrite (rel_band_classif _ _ Rr), (rel_band_classif _ _ Rf).
+    destruct (d_classif mf) as [[nf bf]|], (d_classif mr) as [[nr0 br]|]; cbn in Hclassif;
+      try contradiction; cbn; auto. destruct Hclassif as [Hn _]. cbn in Hn. congruence. }
+  split.
+  { pose proof (rel_classif _ _ Rf) as Cf. pose proof (rel_classif _ _ Rr) as Cr.
+    destruct (d_classif mf) as [[nf bf]|], (d_classif mr) as [[nr0 br]|]; cbn in Hclassif;
+      try contradiction;
+      destruct (x_classif gf) as [lf|]; cbn in Cf; try contradiction;
+      destruct (x_classif gr) as [lr|]; cbn in Cr; try contradiction; cbn; auto.
+    destruct Hclassif as [_ Hb]. cbn in Hb. eapply Forall2_crop_rel; eauto. }
+  { pose proof (rel_segm _ _ Rf) as Sf. pose proof (rel_segm _ _ Rr) as Sr.
+    destruct (d_segm mf) as [sf|], (d_segm mr) as [sr|]; cbn in Hsegm; try contradiction;
+      destruct (x_segm gf) as [af|]; cbn in Sf; try contradiction;
+      destruct (x_segm gr) as [ar|]; cbn in Sr; try contradiction; cbn; auto.
+    eapply crop_of_rel; eauto. }
+Qed.
+
+(* a ROI is refused by the generated function exactly when no pixel of the image lies in it (with its
+   margins); nothing else is ever raised; without a ROI nothing is refused *)
+Lemma gen_refused_iff_empty xi r :
+  let cf := r_col_first r in let cl := r_col_last r in
+  let rf := r_row_first r in let rl := r_row_last r in
+  let m0 := r_m_left r in let m1 := r_m_up r in let m2 := r_m_right r in let m3 := r_m_down r in
+  let W := rf_width (xi_img xi) in let H := rf_height (xi_img xi) in
+  cf - m0 <= cl + m2 -> rf - m1 <= rl + m3 ->
+  (G.create_dataset_from_inputs xi (Some r) = CRaiseOutside
+   <-> ~ exists c i, in_roi cf cl m0 m2 W c /\ in_roi rf rl m1 m3 H i) /\
+  G.create_dataset_from_inputs xi (Some r) <> CRaiseNegative /\
+  exists g, G.create_dataset_from_inputs xi None = COk g.
+Proof.
+  intros cf cl rf rl m0 m1 m2 m3 W H Hc Hr.
+  pose proof (gen_create_result xi (Some r)) as R. cbn [window_of] in R. fold cf cl rf rl m0 m1 m2 m3 W H in R.
+  pose proof (gen_create_result xi None) as R0. cbn [window_of] in R0.
+  destruct (window_refused_iff_empty cf cl rf rl m0 m1 m2 m3 W H Hc Hr) as [Hiff Hneg].
+  split; [|split; [|exact R0]].
+  - rewrite <- Hiff. destruct (get_window cf cl rf rl m0 m1 m2 m3 W H) as [co ro w h| |].
+    + destruct R as [g R]. rewrite R. split; discriminate.
+    + split; auto.
+    + contradiction.
+  - destruct (get_window cf cl rf rl m0 m1 m2 m3 W H) as [co ro w h| |].
+    + destruct R as [g R]. rewrite R. discriminate.
+    + rewrite R. discriminate.
+    + contradiction.
+Qed.
+
+(* the out_dtype of every read, as the source has it now *)
+Lemma gen_read_dtypes :
+  G.read_dtypes =
+  [("add_disparity"%string, DtFloat32); ("add_classif"%string, DtInt16); ("add_segm"%string, DtInt16);
+   ("add_mask"%string, DtNative);
+   ("create_dataset_from_inputs"%string, DtFloat32); ("create_dataset_from_inputs"%string, DtFloat32)].
+Proof. reflexivity. Qed.
